@@ -271,6 +271,10 @@ TEMPLATES: Dict[int, str] = {
 
 def build_field_msg(m, chan_id: int) -> bytes:
     t = m['type']
+
+    if m.get('raw') is not None:
+        return byte(t) + bytes(m['raw'])
+
     tmpl = m.get('tmpl') or TEMPLATES.get(t, 's')
     out = byte(t)
     vals = m['vals']
@@ -349,6 +353,14 @@ def run_field(case) -> CaseResult:
         ref = RefPeer('server', host_key=hk, version=version, comp_cs=comp,
                       comp_sc=comp)
         opts = {'client_factory': lambda: COwner(log)}
+
+        if case.get('hostkeys'):
+            # turns on the client's handling of the server's
+            # hostkeys-00@openssh.com global request
+            opts['known_hosts'] = b'localhost,127.0.0.1 ' + \
+                hk.openssh_public() + b'\n'
+            opts['server_host_keys_handler'] = lambda *args: None
+            labels.add('hostkeys-handler')
 
     conn = RefConn(ref)
     link = RefLink(ref, opts)
@@ -523,6 +535,16 @@ def field_strategy(tier: str):
              'trail': draw(pick([0, 0, 0, 1, 4])),
              'cut': draw(pick([0, 0, 0, 1, 2, 5])),
              'sftp': draw(st.booleans())}
+        if m['type'] == 80 and draw(st.booleans()):
+            # global request carrying a list of strings (host key blobs)
+            m['tmpl'] = 'sb' + draw(pick(['', 's', 'ss', 'sss', 'sr', 'ssr',
+                                          'r']))
+            m['name'] = draw(pick([b'hostkeys-00@openssh.com',
+                                   b'hostkeys-00@openssh.com',
+                                   b'hostkeys-prove-00@openssh.com',
+                                   b'keepalive@openssh.com']))
+            m['vals'] = [1] + m['vals']
+            return m
         if draw(st.booleans()):
             m['name'] = draw(pick([b'session', b'direct-tcpip', b'x11',
                                    b'forwarded-tcpip', b'auth-agent@openssh'
@@ -542,9 +564,59 @@ def field_strategy(tier: str):
         'victim': pick(['server', 'client']),
         'phase': pick(['kex', 'auth', 'open', 'chan', 'chan', 'sftp']),
         'version': pick(['normal', 'normal', 'dropbear', 'cisco']),
-        'compress': st.booleans(),
+        'compress': st.booleans(), 'hostkeys': st.booleans(),
         'msgs': st.lists(msg(), min_size=1, max_size=5),
         'app_write': pick([0, 1, 100, 100, 40000])})
+
+
+# ------------------------------------------------------------- requests ---
+
+GLOBAL_NAMES = [b'hostkeys-00@openssh.com', b'hostkeys-prove-00@openssh.com',
+                b'tcpip-forward', b'cancel-tcpip-forward',
+                b'streamlocal-forward@openssh.com',
+                b'cancel-streamlocal-forward@openssh.com',
+                b'keepalive@openssh.com', b'no-more-sessions@openssh.com',
+                b'unknown-request']
+CHANNEL_NAMES = [b'exit-status', b'exit-signal', b'signal', b'pty-req',
+                 b'env', b'window-change', b'xon-xoff', b'break',
+                 b'subsystem', b'exec', b'shell', b'x11-req',
+                 b'auth-agent-req@openssh.com', b'eow@openssh.com',
+                 b'unknown']
+
+
+def request_cases(tier: str):
+    """Global and channel requests by name, with a body made of 0..2
+    well-formed fields followed by a tail that cannot be decoded (1-3 stray
+    bytes, a length prefix running past the end, a truncated key blob)"""
+
+    key = memwire.key('c10-ed').public_data
+    tails = [b'', b'\x00', b'\x00\x00', b'\x00\x00\x01',
+             u32(2 ** 31) + b'ab', u32(5) + b'abc', key[:len(key) - 3],
+             u32(2 ** 32 - 1)]
+    heads = [b'', string(key), string(key) + string(key), string(b'x'),
+             string(b'127.0.0.1') + u32(0), u32(80) + u32(24)]
+
+    for victim in ('client', 'server'):
+        for hostkeys in ((False, True) if victim == 'client' else (False,)):
+            for want in (0, 1):
+                for head in heads:
+                    for tail in tails:
+                        for name in GLOBAL_NAMES:
+                            yield {'victim': victim, 'phase': 'chan',
+                                   'version': 'normal', 'compress': False,
+                                   'hostkeys': hostkeys, 'app_write': 1,
+                                   'msgs': [{'type': 80, 'raw': string(name)
+                                             + bytes([want]) + head + tail}]}
+                        if tier == 'thorough' or (want and not hostkeys):
+                            for name in CHANNEL_NAMES:
+                                yield {'victim': victim, 'phase': 'chan',
+                                       'version': 'normal',
+                                       'compress': False,
+                                       'hostkeys': hostkeys, 'app_write': 1,
+                                       'msgs': [{'type': 98, 'raw': u32(0) +
+                                                 string(name) +
+                                                 bytes([want]) + head +
+                                                 tail}]}
 
 
 # ----------------------------------------------------------- chanparams ---
@@ -1006,6 +1078,9 @@ FAMILIES = [
                              'phase:sftp', 'app-write-after',
                              'closed-by-victim'] +
                      ['type:%d' % t for t in sorted(TEMPLATES)]},
+           case_timeout=60, timeout_is_violation=True),
+    Family('requests', run_field, enumerate=request_cases, exhaustive=True,
+           required={'all': ['hostkeys-handler', 'type:80', 'type:98']},
            case_timeout=60, timeout_is_violation=True),
     Family('chanparams', run_chanparams, enumerate=chanparams_cases,
            exhaustive=True, required={'all': ['channel-established']},
